@@ -570,6 +570,25 @@ def calls_family(seed, quick):
                    exports=[('c%d' % k, 'func', ni + k) for k in range(ni)] + [('e%d' % k, 'func', k) for k in range(ni)] + [('t', 'func', 2 * ni)])
         script = [{'call': 'c%d' % k} for k in range(ni)] + [{'call': 'e%d' % (ni - 1)}, {'call': 't', 'assume': {0: '$ <= %d' % ni}}]
         out.append(('dupimport_%d' % vi, m, script, {'tab_slots': ni + 2, 'max_host_calls': 2 * ni + 4}))
+    # --- call_indirect with every value type among the parameters (f32 arguments must arrive as f32: no default promotion)
+    for vi, (pl, rt) in enumerate((([F32, I32], F32), ([F64, F32, I64, F32], F64), ([I32, F32], I32), ([F32], I64), ([I64, F64], F32))):
+        sig = (pl, [rt])
+        def fold(mul):
+            body = []
+            for k, t in enumerate(pl):
+                body += [('local.get', k)]
+                body += {I32: [('i64.extend_i32_u',)], I64: [], F32: [('i32.reinterpret_f32',), ('i64.extend_i32_u',)], F64: [('i64.reinterpret_f64',)]}[t]
+                if k:
+                    body += [('i64.const', mul), ('i64.rotl',), ('i64.xor',)]
+            body += {I32: [('i32.wrap_i64',)], I64: [], F32: [('i32.wrap_i64',), ('i32.const', 0x007FFFFF), ('i32.and',), ('f32.reinterpret_i32',)],
+                     F64: [('i64.const', 0x000FFFFFFFFFFFFF), ('i64.and',), ('f64.reinterpret_i64',)]}[rt]
+            return body
+        g1 = Func(pl, [rt], [], fold(7))
+        g2 = Func(pl, [rt], [], fold(13))
+        n = len(pl)
+        caller = Func([I32] + pl, [rt], [], [('local.get', 1 + k) for k in range(n)] + [('local.get', 0), ('call_indirect', sig, 0)])
+        m = Module(funcs=[g1, g2, caller], tables=[(3, 3)], elems=[Elem(('i32.const', 0), [1, 0])], exports=[('c', 'func', 2)])
+        out.append(('indirect_types_%d' % vi, m, [{'call': 'c', 'assume': {0: '$ <= 1'}}], {'tab_slots': 3}))
     # --- call_indirect: defined / imported table, const / global offsets, 1..3 entries, overlapping segments
     sig_a = ([I32, I64], [I64])
     sig_b = ([I64], [I64])
